@@ -205,7 +205,7 @@ pub fn probe(v: &Value) {
             println!("{} {:12} C03={} | C01={} | C02={} | C04={}", if f32_run { "f32" } else { "f64" }, op.name(), short(c3.map(|_| String::new())), short(c1.map(|_| String::new())), short(c2.map(|_| String::new())), short(c4.map(|_| String::new())));
         }
     }
-    println!("operands_hash={}", operands_hash(&case.a, &case.b));
+    println!("operands_hash={} n2_hazard(f64)={} n2_hazard(f32)={}", operands_hash(&case.a, &case.b), crate::gen::n2_hazard(&case.a, &case.b, false), crate::gen::n2_hazard(&case.a, &case.b, true));
 }
 
 /// Listed known findings of one property (input entries carry their operands).
@@ -234,9 +234,15 @@ pub fn run_known(ctx: &mut Ctx, check: &mut dyn FnMut(&crate::gen::Case, Op, boo
             Some("any") | None => OPS.to_vec(),
             Some(o) => vec![Op::parse(o)],
         };
-        let f32_run = f["float"] == "f32";
+        let floats: Vec<bool> = match f["float"].as_str() {
+            Some("f32") => vec![true],
+            Some("f64") => vec![false],
+            _ => vec![false, true],
+        };
         let mut reproduced = 0;
-        for op in &ops {
+        let ops: Vec<(Op, bool)> = ops.iter().flat_map(|o| floats.iter().map(move |fl| (*o, *fl))).collect();
+        for (op, f32_run) in &ops {
+            let f32_run = *f32_run;
             ctx.begin("known", 0, f["id"].as_str().unwrap_or(""));
             ctx.cnt("known_finding_replays", 1);
             match check(&case, *op, f32_run) {
@@ -258,4 +264,38 @@ pub fn run_known(ctx: &mut Ctx, check: &mut dyn FnMut(&crate::gen::Case, Op, boo
         };
         ctx.violations.push(serde_json::json!({"property": prop, "symptom": format!("known:{}", f["id"].as_str().unwrap_or("")), "detail": line, "variant": ctx.variant, "replay": {}}));
     }
+}
+
+/// Operand pairs of all recorded input findings (deduplicated), each with the (operation, is_f32) combinations that are
+/// listed for `prop` in build variant `variant` (None = every operation).
+pub fn sentinel_inputs(prop: &str, variant: &str) -> Vec<(crate::gen::Case, Vec<(Option<Op>, Option<bool>)>)> {
+    let text = std::fs::read_to_string("/verif/known_findings.json").unwrap_or_default();
+    let v: Value = serde_json::from_str(&text).unwrap_or(Value::Null);
+    let mut out: Vec<(String, crate::gen::Case, Vec<(Option<Op>, Option<bool>)>)> = Vec::new();
+    for f in v["findings"].as_array().cloned().unwrap_or_default() {
+        if f["match"] != "input" {
+            continue;
+        }
+        let hash = f["operands_hash"].as_str().unwrap_or("").to_string();
+        if !out.iter().any(|(h, _, _)| *h == hash) {
+            let a = mp_from_json(&f["a"]);
+            let b = mp_from_json(&f["b"]);
+            let integer = is_integer_mp(&a, 3.0e7) && is_integer_mp(&b, 3.0e7);
+            out.push((hash.clone(), crate::gen::Case { family: "K-known", desc: format!("finding {}", f["id"].as_str().unwrap_or("")), a, b, exact: false, exact_f32: false, integer, f32_ok: true, self_crossing: false, faces: vec![] }, vec![]));
+        }
+        if f["property"] == prop && (f["variant"] == "any" || f["variant"].is_null() || f["variant"] == variant) {
+            let op = match f["operation"].as_str() {
+                Some("any") | None => None,
+                Some(o) => Some(Op::parse(o)),
+            };
+            let entry = out.iter_mut().find(|(h, _, _)| *h == hash).unwrap();
+            let fl = match f["float"].as_str() {
+                Some("f32") => Some(true),
+                Some("f64") => Some(false),
+                _ => None,
+            };
+            entry.2.push((op, fl));
+        }
+    }
+    out.into_iter().map(|(_, c, l)| (c, l)).collect()
 }
